@@ -37,6 +37,9 @@ FUNCS = [
     ('in_date_from_unicode', 'spyne/protocol/_inbase.py', 'InProtocolBase', 'date_from_unicode'),
     ('in_datetime_from_unicode_iso', 'spyne/protocol/_inbase.py', 'InProtocolBase', 'datetime_from_unicode_iso'),
     ('in_duration_from_unicode', 'spyne/protocol/_inbase.py', 'InProtocolBase', 'duration_from_unicode'),
+    ('in__parse_datetime_iso_match', 'spyne/protocol/_inbase.py', None, '_parse_datetime_iso_match'),
+    ('in_uuid_from_unicode', 'spyne/protocol/_inbase.py', 'InProtocolBase', 'uuid_from_unicode'),
+    ('out_uuid_to_unicode', 'spyne/protocol/_outbase.py', 'OutProtocolBase', 'uuid_to_unicode'),
     ('in_byte_array_from_bytes', 'spyne/protocol/_inbase.py', 'InProtocolBase', 'byte_array_from_bytes'),
     ('bin_to_base64', 'spyne/model/binary.py', 'ByteArray', 'to_base64'),
     ('bin_from_base64', 'spyne/model/binary.py', 'ByteArray', 'from_base64'),
@@ -47,18 +50,10 @@ FUNCS = [
 ]
 # module-level values read from the imported module: (key, module, expression evaluated in it)
 VALUES = [
-    ('re_DATE_PATTERN', 'spyne.model.primitive.datetime', 'DATE_PATTERN'),
-    ('re_TIME_PATTERN', 'spyne.model.primitive.datetime', 'TIME_PATTERN'),
-    ('re_OFFSET_PATTERN', 'spyne.model.primitive.datetime', 'OFFSET_PATTERN'),
-    ('re_DATETIME_PATTERN', 'spyne.model.primitive.datetime', 'DATETIME_PATTERN'),
-    ('re_DateTime_local', 'spyne.model.primitive.datetime', 'DateTime._local_re.pattern'),
-    ('re_DateTime_utc', 'spyne.model.primitive.datetime', 'DateTime._utc_re.pattern'),
-    ('re_DateTime_offset', 'spyne.model.primitive.datetime', 'DateTime._offset_re.pattern'),
-    ('re_Date_offset', 'spyne.model.primitive.datetime', 'Date._offset_re.pattern'),
-    ('re_inbase_date', 'spyne.protocol._inbase', '_date_re.pattern'),
-    ('re_inbase_time', 'spyne.protocol._inbase', '_time_re.pattern'),
-    ('re_inbase_duration', 'spyne.protocol._inbase', '_duration_re.pattern'),
-    ('re_UUID_PATTERN', 'spyne.model.primitive.string', 'UUID_PATTERN'),
+    # the date/time/duration/uuid patterns are translated semantically by regexes.py (Gen/Regexes.v, coq/C08/RegexTie.v)
+    ('fn_uuid_serialize_default', 'spyne.protocol._outbase', 'repr(_uuid_serialize[None])'),
+    ('fn_uuid_deserialize_default', 'spyne.protocol._inbase',
+     "__import__('inspect').getsource(_uuid_deserialize[None]).strip()"),
     ('fmt_DateTime_dt_format', 'spyne.model.primitive.datetime', 'repr(DateTime.Attributes.dt_format)'),
     ('fmt_DateTime_out_format', 'spyne.model.primitive.datetime', 'repr(DateTime.Attributes.out_format)'),
     ('fmt_Date_date_format', 'spyne.model.primitive.datetime', 'repr(Date.Attributes.date_format)'),
